@@ -189,13 +189,44 @@ def run(run, ix, tier):
             while not isinstance(st, ast.stmt):
                 st = st._parent
             blocks.setdefault(id(st._parent), {}).setdefault(name, []).append(node)
-    for b, d in blocks.items():
+    dname = [n for n in allowed if n != bname]
+    dname = dname[0] if dname else None
+    repaired = False
+    for b, d in sorted(blocks.items(), key=lambda kv: 0 if set(kv[1]) == {bname} else 1):
+        if len(allowed) == 2 and set(d) == {bname} and len(d[bname]) == 1 and dname:
+            # the repair idiom: a boundary missing after an interrupted extension is re-derived from its segment
+            node = d[bname][0]
+            st = node
+            while not isinstance(st, ast.stmt):
+                st = st._parent
+            par = st._parent
+            want_test = 'len(%s) <= len(%s)' % (bname, dname)
+            want_val = '%s[len(%s) - 1][2]' % (dname, bname)
+            if isinstance(par, ast.If) and norm(par.test) == want_test and norm(node.args[0]) == want_val:
+                repaired = True
+                run.ok('O-R2', 'a boundary missing after an interrupted extension is re-derived from its segment')
+                continue
         if len(allowed) == 2 and (set(d) != allowed or any(len(v) != 1 for v in d.values())):
             node = list(d.values())[0][0]
             run.fail(Finding('O-R2', ODES, gs.qualname, norm(node),
                              'segment lists are not extended in lock-step', line=node.lineno))
         else:
             run.ok('O-R2', 'lists extended in lock-step')
+            if len(allowed) == 2:
+                # an interrupt can separate the two appends: the list the lookup bisects on (the gate) must be
+                # extended LAST, and the half-finished state must be repaired on the next call
+                nb, nd = d[bname][0], d[dname][0]
+                if nd.lineno < nb.lineno and repaired:
+                    run.ok('O-R2', 'segment stored before its boundary; torn state repaired on entry')
+                elif nd.lineno >= nb.lineno:
+                    run.fail(Finding('O-R2', ODES, gs.qualname, norm(nb),
+                                     'the boundary is appended before its segment: an interrupt between the two appends '
+                                     'leaves a boundary without data, and every later lookup beyond it raises IndexError',
+                                     line=nb.lineno))
+                else:
+                    run.fail(Finding('O-R2', ODES, gs.qualname, norm(nd),
+                                     'an interrupt between the two appends leaves a segment without its boundary and '
+                                     'nothing re-aligns the lists on the next call', line=nd.lineno))
 
     # ---- O-R3 -------------------------------------------------------------------
     imports = {}
